@@ -30,6 +30,12 @@ CLAIMS = {
  "C16": dict(level="proof", ref="DESIGN.md 5 C16",
    text="Coq theorems over the fold of get_mutable_most_recent: the result is None only for an empty stream, otherwise a delivered item of maximal seq and, among those, greatest value (lexicographic byte order), hence equal for every permutation of the delivered items. Tied to the code end to end: a real client node (sync and async API) looks up a key against scripted loopback peers that hold authentic signed items and answer in a chosen order; the call's result is compared with the model and the specification for the F5 witnesses, seq patterns with gaps/duplicates/ties in several permutations and random streams.",
    note="Trusted: Coq kernel; scripted-peer harness over real loopback UDP with the virtual clock frozen (no request ever times out); the lookup machinery between the sockets and the fold is exercised, not modelled, here."),
+ "C08": dict(level="proof", ref="DESIGN.md 5 C08",
+   text="Coq theorems over the store-phase state machine of a put (acks/errors routed by transaction id, unbounded tallies, bubble-sorted error list, check after every event): Ok only if an acknowledgement was received before completion; CasFailed/NotMostRecent only for a mutable put that actually received 301/302; NoClosestNodes only if nothing was sent; no acks => never Ok; once outstanding requests expire the caller has its answer. Tied to the code by running real puts on a manually ticked node against scripted peers: per-peer tokens checked on every store request, every split/order of ack/error/silence for small replica sets and random ones up to 25, outcome and its timing compared exactly with the model.",
+   note="Trusted: Coq kernel; scripted-peer harness on loopback UDP with virtual clock; transaction ids abstracted to destination peers; replica sets > 255 nodes are covered by the theorem over unbounded tallies and the usize repair, not by an end-to-end run (extra nodes with tokens cannot be constructed through the public API)."),
+ "C17": dict(level="proof", ref="DESIGN.md 5 C17",
+   text="Coq theorems: the exact five-way conflict rule (identical item accepted, lower seq NotMostRecent, different item without cas ConflictRisk, cas = in-flight seq supersedes, other cas CasFailed); a 301/302 tally reaching floor(n/2)+1 of the contacted nodes ends a mutable put with CasFailed/NotMostRecent immediately and whatever the arrival order; such errors never arise for immutable/announce puts. Tied to the code by placing the second call at each stage of the first call's lifetime on a real node and by scripting 301/302/ack splits around the majority threshold.",
+   note="Trusted as C08. Placement granularity is per stage (lookup / store phase / completed), not per loop iteration."),
 }
 
 TECH = "Coq proof over hand-written Gallina model + differential correspondence (vm_compute) against the Rust implementation"
